@@ -429,6 +429,11 @@ func main() {
 	if nStruct < 40 {
 		r.Inconclusive(fmt.Sprintf("only %d structured-output cases could be constructed", nStruct))
 	}
+	// u for which the first ladder step multiplies a word-boundary value by 121666 (see gen.LadderFirstStepU)
+	for i := 0; i < r.Pick(300, 6000); i++ {
+		cases = append(cases, Case{Kind: "pair", K: mon.Hex(mon.Bytes(rng, 32)), U: mon.Hex(gen.LadderFirstStepU(rng))})
+		r.HistN("pair/ladder-first-step-word-boundary-u", 1)
+	}
 	cases = append(cases, Case{Kind: "lengths"})
 	for i := 0; i < r.Pick(20, 400); i++ {
 		cases = append(cases, Case{Kind: "field-contract", Idx: i})
